@@ -5,7 +5,9 @@ import (
 	"net"
 	"os"
 	"path/filepath"
+	"strings"
 	"sync"
+	"time"
 )
 
 // Direction of a proxied message.
@@ -41,12 +43,22 @@ type Proxy struct {
 	// the given JSON-RPC error (as a server lacking or refusing the method would)
 	methodErrors map[string]string
 	// tamper, when set, sees every message and may return the messages to forward in its
-	// place (nil: forward the message unchanged)
-	tamper func(dir int, raw json.RawMessage) []json.RawMessage
+	// place (nil: forward the message unchanged) and messages to send back to the sender
+	// first (as if the other side had just said them)
+	tamper func(dir int, raw json.RawMessage) (forward, back []json.RawMessage)
 }
 
 // SetTamper installs (or removes, with nil) a message rewriting function.
 func (p *Proxy) SetTamper(f func(dir int, raw json.RawMessage) []json.RawMessage) {
+	if f == nil {
+		p.SetTamper2(nil)
+		return
+	}
+	p.SetTamper2(func(dir int, raw json.RawMessage) ([]json.RawMessage, []json.RawMessage) { return f(dir, raw), nil })
+}
+
+// SetTamper2 is SetTamper for functions that also talk back to the sender.
+func (p *Proxy) SetTamper2(f func(dir int, raw json.RawMessage) (forward, back []json.RawMessage)) {
 	p.mu.Lock()
 	defer p.mu.Unlock()
 	p.tamper = f
@@ -175,11 +187,12 @@ func (p *Proxy) accept() {
 			return
 		}
 		var c net.Conn = &lockedConn{Conn: rawc}
-		s, err := net.Dial("unix", p.target)
+		raws, err := net.Dial("unix", p.target)
 		if err != nil {
 			_ = c.Close()
 			continue
 		}
+		var s net.Conn = &lockedConn{Conn: raws}
 		p.mu.Lock()
 		idx := p.conns
 		p.conns++
@@ -239,7 +252,22 @@ func (p *Proxy) pump(idx, dir int, from, to net.Conn, cut func(), stall chan str
 		tamper := p.tamper
 		p.mu.Unlock()
 		if tamper != nil && !stalledNow && fault == nil && reject == "" {
-			if outs := tamper(dir, raw); outs != nil {
+			outs, back := tamper(dir, raw)
+			for _, o := range back {
+				// a JSON string "sleep:<duration>" in the list is a pause, not a message
+				var pause string
+				if json.Unmarshal(o, &pause) == nil && strings.HasPrefix(pause, "sleep:") {
+					if d, err := time.ParseDuration(strings.TrimPrefix(pause, "sleep:")); err == nil {
+						time.Sleep(d)
+					}
+					continue
+				}
+				if _, err := from.Write(append(append([]byte{}, o...), '\n')); err != nil {
+					cut()
+					return
+				}
+			}
+			if outs != nil {
 				failed := false
 				for _, o := range outs {
 					if _, err := to.Write(append(append([]byte{}, o...), '\n')); err != nil {
